@@ -119,6 +119,11 @@ def fixed_pool_cases(profile):
             for k, vk in enumerate(('ndarray', 'exc', 'touchy', 'falsy')):
                 cases.append({'backend': be, 'api': ('lpm', 'pm', 'pf')[k % 3], 'n': 4, 'workers': 2, 'buffer': 2,
                               'delays': [2, 0, 1, 0], 'vk': vk, 'salt': 50 + k})
+            # a None example in the source (the input of the function), mid-stream
+            cases.append({'backend': be, 'api': 'pm', 'n': 5, 'workers': 2, 'buffer': 2, 'delays': [0, 1, 0, 0, 0],
+                          'src_none': 2})
+            cases.append({'backend': be, 'api': 'lpm', 'n': 5, 'workers': 2, 'buffer': 3, 'delays': [0, 1, 0, 0, 0],
+                          'src_none': 0})
             if be == 't':
                 for vk in ('ndarray', 'exc', 'touchy', 'falsy'):
                     cases.append({'backend': be, 'api': 'pf', 'n': 4, 'workers': 1, 'buffer': 2,
